@@ -69,6 +69,26 @@ theorem ir_maps_ordered : mapsOrdered typeDefs irTypes = true := by decide +kern
 /-- … and the same for every definition reachable from them through field types. -/
 theorem ir_reachable_ordered : hashFreeFrom typeDefs irTypes = true := by decide +kernel
 
+/-- The types whose values are shared between threads. -/
+def sharedTypes : List String :=
+  ["Schema", "IndexedQuery", "IRQuery", "InterpretedQuery", "FieldValue", "Type"]
+
+/-- SUFFICIENT structural condition, stronger than the property needs: no definition reachable from
+`Schema`, `IndexedQuery`, `IRQuery`, `InterpretedQuery`, `FieldValue`, `Type` contains any
+interior-mutability or lock type (`Cell`, `RefCell`, `UnsafeCell`, `OnceCell`, `OnceLock`,
+`LazyCell`, `LazyLock`, `Mutex`, `RwLock`, `Atomic*`, …): schemas and compiled queries are immutable
+values, so (in safe code) nothing a thread does through a shared `&`/`Arc` can be observed by
+another — executing concurrently cannot differ from executing sequentially *because of these
+values*.  `Send + Sync` alone does not give that: a `RwLock`-guarded cache filled with a faulty
+double-checked pattern is `Send + Sync` and still races.  A correctly synchronised cache would
+violate this obligation while keeping the property; when this theorem stops checking, the verdict
+rests on the harness's concurrency exploration (fresh compiled query per round, barrier-released
+first executions) to exhibit a failing schedule, and is reported `no-failing-input-found` if it
+finds none.  (The external `async_graphql_parser` AST types inside `Schema` are leaves of the table
+and are not inspected.) -/
+theorem ir_has_no_interior_mutability : immutableFrom typeDefs sharedTypes = true := by
+  decide +kernel
+
 /-! Non-vacuity: the derivation does say "no" — an `Rc` or a `Cell` vertex poisons a context, a
 boxed iterator is not `Send`, and `Schema` (which does use `HashMap`) fails the ordered-maps check. -/
 example : sendSync typeDefs (.path "DataContext" [.path "Rc" [.tuple []]]) = (false, false) := by
@@ -80,6 +100,10 @@ example : sendSync typeDefs (.path "VertexIterator" [.path "u8" []]) = (false, f
 example : sendSync typeDefs (.path "Arc" [.path "RefCell" [.path "IRQuery" []]]) = (false, false) := by
   decide +kernel
 example : mapsOrdered typeDefs ["Schema"] = false := by decide +kernel
+example : mentionsInterior (.path "Arc" [.path "RwLock" [.path "Vec" [.path "u8" []]]]) = true := by
+  decide +kernel
+example : mentionsInterior (.path "Option" [.path "AtomicUsize" []]) = true := by decide +kernel
+example : immutableFrom typeDefs ["NoSuchType"] = false := by decide +kernel
 example : (reachable typeDefs defaultFuel irTypes).length ≥ 20 := by decide +kernel
 
 end TF.C24
@@ -100,3 +124,4 @@ end TF.C14
 #print axioms TF.C24.data_context_like_vertex
 #print axioms TF.C24.ir_maps_ordered
 #print axioms TF.C24.ir_reachable_ordered
+#print axioms TF.C24.ir_has_no_interior_mutability
